@@ -486,7 +486,22 @@ pub fn c05(em: &mut Emit, thorough: bool, seed: u64) {
         ("unquoted".into(), Some(b"v1".to_vec())),
         ("star".into(), Some(b"*".to_vec())),
         ("empty".into(), Some(b"".to_vec())),
+        // If-Range takes ONE validator: a list is not one, wherever the current tag sits in it
+        ("list-first".into(), Some(b"\"v1\", \"v2\"".to_vec())),
+        ("list-last".into(), Some(b"\"v2\", \"v1\"".to_vec())),
+        ("list-weak-then-strong".into(), Some(b"W/\"v1\", \"v1\"".to_vec())),
+        ("list-twice".into(), Some(b"\"v1\",\"v1\"".to_vec())),
+        ("list-trailing-comma".into(), Some(b"\"v1\",".to_vec())),
+        ("list-leading-comma".into(), Some(b",\"v1\"".to_vec())),
+        ("list-star".into(), Some(b"*, \"v1\"".to_vec())),
     ];
+    // near-misses of the matching validator
+    for i in 0..(if thorough { 400 } else { 40 }) {
+        let v = mutate_bytes(&mut rng, &strong(opaque).render());
+        if v != strong(opaque).render() {
+            if_ranges.push((format!("mut{}", i % 4), Some(v)));
+        }
+    }
     for (n, d) in [("date-before", lm - 1), ("date-equal", lm), ("date-after", lm + 1)] {
         if_ranges.push((
             n.into(),
@@ -549,7 +564,7 @@ pub fn c05(em: &mut Emit, thorough: bool, seed: u64) {
                         &p,
                         &format!(
                             "{}:{}:{}",
-                            if name.starts_with("rand") { "rand" } else { name },
+                            if name.starts_with("rand") { "rand" } else if name.starts_with("mut") { "mut" } else { name },
                             match et {
                                 None => "noetag",
                                 Some(t) if t.weak => "weak",
